@@ -1,0 +1,35 @@
+//! Read-only verification hooks (feature `verif-hooks`).
+use crate::key::list::KeyExpList;
+use crate::key::node::Color;
+use crate::key::tree::KeyExpTree;
+use crate::verif::VerifSnapshot;
+use crate::{Expiration, ExpiredKey};
+
+impl<K: ExpiredKey<E>, E: Expiration, V: Copy> KeyExpTree<K, E, V> {
+    pub fn verif_snapshot(&self) -> VerifSnapshot {
+        VerifSnapshot {
+            root: self.root,
+            links: self.store.buffer.iter().map(|n| [n.parent, n.left, n.right]).collect(),
+            red: self.store.buffer.iter().map(|n| n.color == Color::Red).collect(),
+            unused: self.store.unused.clone(),
+        }
+    }
+
+    /// Key stored in `slot` (checked access; only call for slots that are part of the tree:
+    /// never-used slots hold zeroed memory).
+    pub fn verif_key_at(&self, slot: u32) -> K {
+        self.store.buffer[slot as usize].entity.key
+    }
+
+    /// Value stored in `slot` (same restriction as `verif_key_at`).
+    pub fn verif_val_at(&self, slot: u32) -> V {
+        self.store.buffer[slot as usize].entity.val
+    }
+}
+
+impl<K: ExpiredKey<E>, E: Expiration, V: Copy> KeyExpList<K, E, V> {
+    /// Physically stored `(key, value)` pairs in storage order.
+    pub fn verif_entries(&self) -> Vec<(K, V)> {
+        self.buffer.iter().map(|e| (e.key, e.val)).collect()
+    }
+}
